@@ -12,6 +12,12 @@ import (
 var generators = map[string]func(*Gen){
 	"C01": genC01,
 	"C02": genC02,
+	"C03": genC03,
+	"C04": genC04,
+	"C08": genC08,
+	"C11": genC11,
+	"C12": genC12,
+	"C19": genC19,
 }
 
 func main() {
